@@ -108,6 +108,19 @@ def judge_pair(ctx, s1, c1, s2, c2, N):
                 continue
             ctx.check(refl, "reflexive", f"Isomorphism.check(s, s) is False for a specification whose verified classes are all atoms:\n{s}")
     ctx.label("isomorphic" if ab else "not-isomorphic")
+    # independent partition-refinement test: the library's verdict must never be
+    # 'isomorphic' for specifications that are not (a 'no' for isomorphic ones is an
+    # incompleteness the statement does not exclude; it is counted)
+    try:
+        from vf.oracles.speciso import isomorphic
+
+        truly = isomorphic(s1, s2)
+    except Exception:
+        truly = None
+    if truly is not None:
+        ctx.check(not (ab and not truly), "check-unsound", "Isomorphism.check says isomorphic, the independent partition-refinement test says not")
+        if truly and not ab:
+            ctx.label("library-check-false-negative")
     try:
         bij = Bijection.construct(s1, s2)
     except Exception as e:
